@@ -74,7 +74,7 @@ FUNCTION stmcase(p : INTEGER) : INTEGER;
   END_CASE;
   RETURN (3);
 END_FUNCTION;"""
-HEAD = ["SCHEMA ex;", "@@CONSTANTS@@", STATEMENTS, "FUNCTION f1(p : NUMBER) : NUMBER; RETURN (p); END_FUNCTION;", "ENTITY host;", "  a1 : INTEGER;",
+HEAD = ["SCHEMA ex;", "@@CONSTANTS@@", "TYPE lm = REAL;", "END_TYPE;", "TYPE ctr = INTEGER;", "END_TYPE;", "@@PARAMLISTS@@", STATEMENTS, "FUNCTION f1(p : NUMBER) : NUMBER; RETURN (p); END_FUNCTION;", "ENTITY host;", "  a1 : INTEGER;",
         "  a7 : NUMBER;", "  a3 : STRING;", "  a9 : LIST [2:?] OF INTEGER;"]
 
 
@@ -152,8 +152,9 @@ def _expand(toks):
                         depth -= 1
                     e += 1
                 ty = toks[j:e]
+                isvar = bool(out) and out[-1] == ("id", "VAR")       # `VAR a, b : t` declares both as VAR
                 for q, nm in enumerate(names):
-                    out += [nm, ("op", ":")] + ty + ([("op", ";")] if q < len(names) - 1 else [])
+                    out += ([("id", "VAR")] if isvar and q else []) + [nm, ("op", ":")] + ty + ([("op", ";")] if q < len(names) - 1 else [])
                 i = e
                 continue
         if (k, v) == ("op", "{"):
@@ -314,7 +315,19 @@ def run(ctx):
         lab["k_%d" % i] = {"src": "'%s'" % v, "e": {"k": "str", "v": v}, "kind": "str"}
         consts.append("  k_%d : STRING := '%s';" % (i, v))
     consts.append("END_CONSTANT;")
-    lines = [x for h in HEAD for x in (consts if h == "@@CONSTANTS@@" else [h])] + ["DERIVE"]
+    # every formal parameter list of spec/ParamLists.tla: as a procedure, and (VAR dropped) as a function
+    pls = []
+    gp = tlc.run_tlc("ParamLists", None, workers=2, timeout=300, on_case=pls.append, cfg_text="INIT Init\nNEXT Next\nINVARIANT Emit\n")
+    if gp.rc != 0 or gp.errors or not pls:
+        raise InfraError("ParamLists failed: %s" % gp.tail[-10:])
+    pls.sort(key=lambda c: json.dumps(c, sort_keys=True))
+    procs = []
+    for k, c in enumerate(pls if not ctx.quick else pls[::3]):
+        ps = "; ".join("%sq%d : %s" % ("VAR " if x["var"] else "", j + 1, x["ty"]) for j, x in enumerate(c["ps"]))
+        procs.append("PROCEDURE pr%d(%s);\n  RETURN;\nEND_PROCEDURE;" % (k, ps))
+        if not any(x["var"] for x in c["ps"]):
+            procs.append("FUNCTION fp%d(%s) : INTEGER;\n  RETURN (1);\nEND_FUNCTION;" % (k, ps))
+    lines = [x for h in HEAD for x in (consts if h == "@@CONSTANTS@@" else procs if h == "@@PARAMLISTS@@" else [h])] + ["DERIVE"]
     for i, c in enumerate(cases):
         if c["kind"] == "num":
             lab["d_%d" % i] = c
@@ -373,8 +386,8 @@ def run(ctx):
                               {"case": c, "options": opts, "printed": [t[1] for t in got[name]]})
         # (2b) the algorithm declarations (every statement kind) token by token
         fa, fb = decl_diff(open(src).read(), out)
-        fa = {d for d in fa if d and d[0] == "FUNCTION"}
-        fb = {d for d in fb if d and d[0] == "FUNCTION"}
+        fa = {d for d in fa if d and d[0] in ("FUNCTION", "PROCEDURE")}
+        fb = {d for d in fb if d and d[0] in ("FUNCTION", "PROCEDURE")}
         if fa != fb:
             ctx.violation("statements-differ|" + tagw, "exppp %s: function declarations differ: only in source %s; only in output %s" % (
                 tagw, sorted(" ".join(x)[:300] for x in fa - fb)[:1], sorted(" ".join(x)[:300] for x in fb - fa)[:1]), {"options": opts, "output": out[:4000]})
